@@ -1,5 +1,393 @@
+//! Workload "copy" (C19): copying a file through the library is lossless; writing is deterministic.
+
+use crate::dev::Dev;
+use crate::json::{fnv64, J};
+use crate::obs::*;
+use crate::rng::Rng;
+use crate::scene::*;
 use crate::{Args, Reporter};
-pub fn run(_a: &Args, _rep: &mut Reporter) {
-    eprintln!("workload not built yet");
-    std::process::exit(2);
+use e57::*;
+use std::io::Cursor;
+
+pub enum CopyErr {
+    NotConforming(String),
+    SourceUnreadable(String),
+    Failed(String),
+}
+
+fn fmt_of(b: &ImageBlob) -> ImageFormat {
+    match b.format {
+        ImageFormat::Png => ImageFormat::Png,
+        ImageFormat::Jpeg => ImageFormat::Jpeg,
+    }
+}
+
+/// read `src` with the library and write everything it reports into a new file
+pub fn copy_file(src: &[u8]) -> std::result::Result<Vec<u8>, CopyErr> {
+    let mut rd = E57Reader::new(Cursor::new(src.to_vec())).map_err(|e| CopyErr::SourceUnreadable(err_str(&e)))?;
+    let exts = rd.extensions();
+    for e in &exts {
+        if !name_ok(&e.namespace) {
+            return Err(CopyErr::NotConforming(format!("extension prefix {:?} is not an accepted name", e.namespace)));
+        }
+    }
+    if rd.guid().is_empty() {
+        return Err(CopyErr::NotConforming("empty file guid".into()));
+    }
+    let pcs = rd.pointclouds();
+    for pc in &pcs {
+        if let Err(why) = prototype_conforms(&pc.prototype, &exts) {
+            return Err(CopyErr::NotConforming(format!("prototype: {}", why)));
+        }
+    }
+    let imgs = rd.images();
+    let dev = Dev::empty();
+    let f = |e: Error| CopyErr::Failed(err_str(&e));
+    let mut w = E57Writer::new(dev.clone(), rd.guid()).map_err(f)?;
+    w.set_coordinate_metadata(rd.coordinate_metadata().map(|s| s.to_string()));
+    w.set_creation(rd.creation());
+    for e in &exts {
+        w.register_extension(e.clone()).map_err(f)?;
+    }
+    for pc in &pcs {
+        // the source must be readable to its end, otherwise there is nothing to copy
+        let rr = read_raw(&mut rd, pc, usize::MAX).map_err(CopyErr::SourceUnreadable)?;
+        if let End::Err(e) = &rr.end {
+            return Err(CopyErr::SourceUnreadable(e.clone()));
+        }
+        for p in &rr.items {
+            if let Err(why) = point_fits(&pc.prototype, p) {
+                return Err(CopyErr::NotConforming(format!("source holds a value outside its declared range ({})", why)));
+            }
+        }
+        let mut pw = w.add_pointcloud(pc.guid.as_deref().unwrap_or(""), pc.prototype.clone()).map_err(f)?;
+        pw.set_name(pc.name.clone());
+        pw.set_description(pc.description.clone());
+        pw.set_original_guids(pc.original_guids.clone());
+        pw.set_transform(pc.transform.clone());
+        pw.set_acquisition_start(pc.acquisition_start.clone());
+        pw.set_acquisition_end(pc.acquisition_end.clone());
+        pw.set_sensor_vendor(pc.sensor_vendor.clone());
+        pw.set_sensor_model(pc.sensor_model.clone());
+        pw.set_sensor_serial(pc.sensor_serial.clone());
+        pw.set_sensor_hw_version(pc.sensor_hw_version.clone());
+        pw.set_sensor_sw_version(pc.sensor_sw_version.clone());
+        pw.set_sensor_fw_version(pc.sensor_fw_version.clone());
+        pw.set_temperature(pc.temperature);
+        pw.set_humidity(pc.humidity);
+        pw.set_atmospheric_pressure(pc.atmospheric_pressure);
+        pw.set_intensity_limits(pc.intensity_limits.clone());
+        pw.set_color_limits(pc.color_limits.clone());
+        for p in rr.items {
+            pw.add_point(p).map_err(f)?;
+        }
+        pw.finalize().map_err(f)?;
+    }
+    for im in &imgs {
+        let mut iw = w.add_image(im.guid.as_deref().unwrap_or("")).map_err(f)?;
+        if let Some(v) = &im.name {
+            iw.set_name(v);
+        }
+        if let Some(v) = &im.description {
+            iw.set_description(v);
+        }
+        if let Some(v) = &im.pointcloud_guid {
+            iw.set_pointcloud_guid(v);
+        }
+        if let Some(v) = &im.transform {
+            iw.set_transform(v.clone());
+        }
+        if let Some(v) = &im.acquisition {
+            iw.set_acquisition(v.clone());
+        }
+        if let Some(v) = &im.sensor_vendor {
+            iw.set_sensor_vendor(v);
+        }
+        if let Some(v) = &im.sensor_model {
+            iw.set_sensor_model(v);
+        }
+        if let Some(v) = &im.sensor_serial {
+            iw.set_sensor_serial(v);
+        }
+        let mut get = |b: &Blob| -> std::result::Result<Vec<u8>, CopyErr> { read_blob(&mut rd, b).map(|(_, d)| d).map_err(CopyErr::SourceUnreadable) };
+        if let Some(v) = &im.visual_reference {
+            let data = get(&v.blob.data)?;
+            let mask = match &v.mask {
+                Some(m) => Some(get(m)?),
+                None => None,
+            };
+            let mut d: &[u8] = &data;
+            let mut ms: &[u8] = mask.as_deref().unwrap_or(&[]);
+            let mo: Option<&mut dyn std::io::Read> = if mask.is_some() { Some(&mut ms) } else { None };
+            iw.add_visual_reference(fmt_of(&v.blob), &mut d, v.properties.clone(), mo).map_err(f)?;
+        }
+        match &im.projection {
+            Some(Projection::Pinhole(p)) => {
+                let data = get(&p.blob.data)?;
+                let mask = match &p.mask {
+                    Some(m) => Some(get(m)?),
+                    None => None,
+                };
+                let mut d: &[u8] = &data;
+                let mut ms: &[u8] = mask.as_deref().unwrap_or(&[]);
+                let mo: Option<&mut dyn std::io::Read> = if mask.is_some() { Some(&mut ms) } else { None };
+                iw.add_pinhole(fmt_of(&p.blob), &mut d, p.properties.clone(), mo).map_err(f)?;
+            }
+            Some(Projection::Spherical(p)) => {
+                let data = get(&p.blob.data)?;
+                let mask = match &p.mask {
+                    Some(m) => Some(get(m)?),
+                    None => None,
+                };
+                let mut d: &[u8] = &data;
+                let mut ms: &[u8] = mask.as_deref().unwrap_or(&[]);
+                let mo: Option<&mut dyn std::io::Read> = if mask.is_some() { Some(&mut ms) } else { None };
+                iw.add_spherical(fmt_of(&p.blob), &mut d, p.properties.clone(), mo).map_err(f)?;
+            }
+            Some(Projection::Cylindrical(p)) => {
+                let data = get(&p.blob.data)?;
+                let mask = match &p.mask {
+                    Some(m) => Some(get(m)?),
+                    None => None,
+                };
+                let mut d: &[u8] = &data;
+                let mut ms: &[u8] = mask.as_deref().unwrap_or(&[]);
+                let mo: Option<&mut dyn std::io::Read> = if mask.is_some() { Some(&mut ms) } else { None };
+                iw.add_cylindrical(fmt_of(&p.blob), &mut d, p.properties.clone(), mo).map_err(f)?;
+            }
+            None => {}
+        }
+        iw.finalize().map_err(f)?;
+    }
+    w.finalize().map_err(f)?;
+    drop(w);
+    Ok(dev.bytes())
+}
+
+/// canonical content of a file as read back: (label, value) lines without offsets, XML text, library version
+pub fn content_log(bytes: &[u8], with_bounds: bool) -> std::result::Result<Vec<(String, String)>, String> {
+    let mut rd = E57Reader::new(Cursor::new(bytes.to_vec())).map_err(|e| err_str(&e))?;
+    let mut v: Vec<(String, String)> = Vec::new();
+    v.push(("root.guid".into(), format!("{:?}", rd.guid())));
+    v.push(("root.format".into(), format!("{:?}", rd.format_name())));
+    v.push(("root.coord".into(), format!("{:?}", rd.coordinate_metadata())));
+    v.push(("root.creation".into(), datetime_str(&rd.creation())));
+    let mut e: Vec<String> = rd.extensions().iter().map(|e| format!("{}={}", e.namespace, e.url)).collect();
+    e.sort();
+    v.push(("root.extensions".into(), format!("{:?}", e)));
+    let pcs = rd.pointclouds();
+    v.push(("pc.count".into(), pcs.len().to_string()));
+    for (i, pc) in pcs.iter().enumerate() {
+        for (k, val) in pc_fields(pc, false) {
+            if !with_bounds && k.ends_with("_bounds") {
+                continue;
+            }
+            // partial limits are documented to be dropped by the writer: compared only when complete
+            if k == "intensity_limits" {
+                if let Some(l) = &pc.intensity_limits {
+                    if l.intensity_min.is_none() || l.intensity_max.is_none() {
+                        continue;
+                    }
+                }
+            }
+            if k == "color_limits" {
+                if let Some(l) = &pc.color_limits {
+                    if l.red_min.is_none() || l.red_max.is_none() || l.green_min.is_none() || l.green_max.is_none() || l.blue_min.is_none() || l.blue_max.is_none() {
+                        continue;
+                    }
+                }
+            }
+            v.push((format!("pc{}.{}", i, k), val));
+        }
+        let rr = read_raw(&mut rd, pc, usize::MAX)?;
+        let mut h: u64 = 0xcbf29ce484222325;
+        for p in &rr.items {
+            h = h.wrapping_mul(0x100000001b3) ^ fnv64(raw_str(p).as_bytes());
+        }
+        v.push((format!("pc{}.points", i), format!("{} items end={} digest={:016x}", rr.items.len(), rr.end.render(), h)));
+    }
+    let imgs = rd.images();
+    v.push(("img.count".into(), imgs.len().to_string()));
+    for (i, im) in imgs.iter().enumerate() {
+        for (k, val) in img_fields(im, false) {
+            v.push((format!("img{}.{}", i, k), val));
+        }
+        for (role, b) in img_blobs(im) {
+            let r = read_blob(&mut rd, &b).map(|(n, d)| format!("{}:{:016x}", n, fnv64(&d)));
+            v.push((format!("img{}.blob.{}", i, role), format!("{:?}", r)));
+        }
+    }
+    Ok(v)
+}
+
+fn first_diff(a: &[(String, String)], b: &[(String, String)]) -> Option<(String, String, String)> {
+    for (x, y) in a.iter().zip(b.iter()) {
+        if x != y {
+            return Some((x.0.clone(), x.1.chars().take(200).collect(), y.1.chars().take(200).collect()));
+        }
+    }
+    if a.len() != b.len() {
+        return Some(("line-count".into(), a.len().to_string(), b.len().to_string()));
+    }
+    None
+}
+
+/// drop empty-vs-absent differences the writer documents / cannot express: a missing guid becomes ""
+fn normalise(v: Vec<(String, String)>) -> Vec<(String, String)> {
+    v
+}
+
+pub fn run(a: &Args, rep: &mut Reporter) {
+    let ext_files: Vec<String> = match a.get("filelist") {
+        Some(p) => std::fs::read_to_string(p).map(|s| s.lines().map(|l| l.to_string()).filter(|l| !l.is_empty()).collect()).unwrap_or_default(),
+        None => Vec::new(),
+    };
+    let testdata: Vec<String> = ["tinyCartesianFloatRgb.e57", "tiny_pc_and_images.e57", "tiny_pc_with_extension.e57", "tiny_spherical.e57", "empty.e57", "empty_pc.e57", "original_guids.e57", "integer_intensity.e57", "scaled_integer_intensity.e57", "float_intensity_without_min_max.e57", "no_ext_namespace.e57", "las2e57_no_images_tag.e57", "bunnyInt19.e57", "bunnyFloat.e57", "bunnyDouble.e57", "bunnyInt32.e57", "bunnyInt21.e57", "bunnyInt24.e57"].iter().map(|s| format!("/repo/testdata/{}", s)).collect();
+    let mut digest_files: u64 = 0;
+    let n_fixed = (testdata.len() + ext_files.len()) as u64;
+    let (done, reason) = crate::run_cases(a, rep, |idx, cs, rep| {
+        let mut r = Rng::new(cs);
+        let mut cover = std::mem::take(&mut rep.cover);
+        // source file
+        let (label, src, own_writer): (String, Vec<u8>, bool) = if (idx as usize) < testdata.len() {
+            match std::fs::read(&testdata[idx as usize]) {
+                Ok(b) => (testdata[idx as usize].rsplit('/').next().unwrap_or("?").to_string(), b, false),
+                Err(_) => {
+                    rep.cover = cover;
+                    return;
+                }
+            }
+        } else if idx < n_fixed {
+            let p = &ext_files[idx as usize - testdata.len()];
+            match std::fs::read(p) {
+                Ok(b) => (format!("encoder:{}", p.rsplit('/').next().unwrap_or("?")), b, false),
+                Err(_) => {
+                    rep.cover = cover;
+                    return;
+                }
+            }
+        } else {
+            let mut k = Knobs::base();
+            k.max_items = 4;
+            k.big_points = r.chance(1, 10);
+            k.meta_heavy = r.chance(1, 3);
+            k.wild_strings = k.meta_heavy;
+            if idx % 3 == 0 {
+                k.width_focus = Some(((idx / 3) % 65) as usize);
+            }
+            let scene = gen_scene(&mut r, &k, &mut cover);
+            let d1 = Dev::empty();
+            let run1 = run_scene(&scene, d1.clone(), Judge::Conforming);
+            if !run1.finalized {
+                rep.stat("program_not_finalized", 1);
+                rep.cover = cover;
+                return;
+            }
+            // determinism: the same program a second time on a fresh device
+            let d2 = Dev::empty();
+            let _ = run_scene(&scene, d2.clone(), Judge::Conforming);
+            rep.stat("determinism_pairs", 1);
+            if d1.bytes() != d2.bytes() {
+                let (b1, b2) = (d1.bytes(), d2.bytes());
+                let first = b1.iter().zip(b2.iter()).position(|(x, y)| x != y).unwrap_or(b1.len().min(b2.len()));
+                rep.violation("C19", "nondeterministic-bytes/same-process", idx, &format!("the same writer program produced different files (sizes {} / {}, first difference at byte {})", b1.len(), b2.len(), first));
+            }
+            digest_files = digest_files.wrapping_add(fnv64(&d1.bytes()) & 0xFFFF_FFFF_FFFF);
+            (format!("program:{}", idx), d1.bytes(), true)
+        };
+        rep.stat("sources", 1);
+        let orig = match guarded(|| content_log(&src, own_writer)) {
+            Ok(Ok(v)) => normalise(v),
+            Ok(Err(_)) => {
+                rep.stat("source_unreadable", 1);
+                rep.cover = cover;
+                return;
+            }
+            Err(p) => {
+                rep.violation("C08", &format!("panic/content-log/{}", panic_sig(&p)), idx, &p);
+                rep.cover = cover;
+                return;
+            }
+        };
+        let c1 = match guarded(|| copy_file(&src)) {
+            Err(p) => {
+                rep.violation("C19", &format!("copy-panic/{}", panic_sig(&p)), idx, &format!("{}: {}", label, p));
+                rep.cover = cover;
+                return;
+            }
+            Ok(Err(CopyErr::NotConforming(why))) => {
+                rep.stat("skipped_not_rule_conforming", 1);
+                cover.hit(&format!("skipped:{}", class_of(&why).chars().take(50).collect::<String>()));
+                rep.cover = cover;
+                return;
+            }
+            Ok(Err(CopyErr::SourceUnreadable(_))) => {
+                rep.stat("source_unreadable", 1);
+                rep.cover = cover;
+                return;
+            }
+            Ok(Err(CopyErr::Failed(e))) => {
+                rep.violation("C19", &format!("copy-failed/{}", class_of(&e)), idx, &format!("{}: copying a readable, rule-conforming file failed: {}", label, e));
+                rep.cover = cover;
+                return;
+            }
+            Ok(Ok(b)) => b,
+        };
+        rep.stat("files_copied", 1);
+        digest_files = digest_files.wrapping_add(fnv64(&c1) & 0xFFFF_FFFF_FFFF);
+        cover.hit(if own_writer { "source:writer" } else if label.starts_with("encoder:") { "source:independent-encoder" } else { "source:testdata" });
+        match content_log(&c1, own_writer) {
+            Err(e) => rep.violation("C19", &format!("copy-unreadable/{}", class_of(&e)), idx, &format!("{}: the copy cannot be read back: {}", label, e)),
+            Ok(l1) => {
+                let l1 = normalise(l1);
+                if let Some((k, a1, b1)) = first_diff(&orig, &l1) {
+                    let kk: String = k.chars().filter(|c| !c.is_ascii_digit()).collect();
+                    rep.violation("C19", &format!("copy-differs/{}", kk), idx, &format!("{}: {} original {} copy {}", label, k, a1, b1));
+                }
+                // second generation, bounds included (both written by this writer)
+                match guarded(|| copy_file(&c1)) {
+                    Ok(Ok(c2)) => {
+                        rep.stat("generations_compared", 1);
+                        let g1 = content_log(&c1, true);
+                        let g2 = content_log(&c2, true);
+                        match (g1, g2) {
+                            (Ok(g1), Ok(g2)) => {
+                                if let Some((k, a1, b1)) = first_diff(&g1, &g2) {
+                                    let kk: String = k.chars().filter(|c| !c.is_ascii_digit()).collect();
+                                    rep.violation("C19", &format!("second-generation-differs/{}", kk), idx, &format!("{}: {} first copy {} second copy {}", label, k, a1, b1));
+                                }
+                                if c1 != c2 {
+                                    rep.stat("second_generation_bytes_differ", 1);
+                                } else {
+                                    rep.stat("second_generation_byte_identical", 1);
+                                }
+                            }
+                            _ => rep.violation("C19", "second-generation-unreadable", idx, &label),
+                        }
+                    }
+                    Ok(Err(CopyErr::Failed(e))) => rep.violation("C19", &format!("second-copy-failed/{}", class_of(&e)), idx, &format!("{}: {}", label, e)),
+                    Ok(Err(_)) => rep.violation("C19", "second-copy-rejected", idx, &format!("{}: the first copy is not accepted as a source", label)),
+                    Err(p) => rep.violation("C19", &format!("copy-panic/{}", panic_sig(&p)), idx, &p),
+                }
+                // determinism of the copy itself
+                if let Ok(Ok(c1b)) = guarded(|| copy_file(&src)) {
+                    rep.stat("determinism_pairs", 1);
+                    if c1b != c1 {
+                        rep.violation("C19", "nondeterministic-bytes/copy", idx, &format!("{}: copying the same file twice produced different bytes", label));
+                    }
+                }
+                // prototypes with defaulted ranges
+                if l1.iter().any(|(k, v)| k.ends_with(".prototype") && v.contains("-9223372036854775808,9223372036854775807")) {
+                    cover.hit("prototype:full-i64-range");
+                }
+            }
+        }
+        cover.hit_num("source_identity", fnv64(&src) >> 8);
+        if rep.samples < rep.max_samples {
+            rep.sample(J::obj().set("case", J::i(idx as i128)).set("source", J::s(&label)).set("source_bytes", J::u(src.len())).set("copy_bytes", J::u(c1.len())).set("content_lines", J::u(orig.len())));
+        }
+        rep.cover = cover;
+    });
+    rep.stat("digest_files_sum48", digest_files & 0xFFFF_FFFF_FFFF);
+    rep.finish(done, reason);
 }
